@@ -244,3 +244,38 @@ Example batch_process_nontrivial :
     = (Some [4; 7; 10; 13; 19]%Z, [ECall [1; 2]; EYield; ECall [3; 4]; EYield; ECall [6]; EYield]%Z) /\
   batch_process 0 (map_opt stage) [1; 13; 3]%Z = (None, [ECall [1]; EYield; ECall [13]]%Z).
 Proof. vm_compute. split; reflexivity. Qed.
+
+(* the stages' own process_batch *)
+Theorem stage_process_batch_is_map_proof :
+  forall (T R : Type) (f : T -> option R) (xs : list T),
+    (fst (stage_batch_default f xs) = map_opt f xs /\
+     calls (snd (stage_batch_default f xs)) = upto_fail f xs /\ yields (snd (stage_batch_default f xs)) = 0) /\
+    (forall p : T -> bool,
+       fst (stage_batch_default (filter_process p) xs) = Some (map (fun x => if p x then Some x else None) xs) /\
+       calls (snd (stage_batch_default (filter_process p) xs)) = xs) /\
+    (forall (bf : list T -> option (list R)), (forall c, bf c = map_opt f c) ->
+       fst (stage_batch_func bf xs) = map_opt f xs /\ calls (snd (stage_batch_func bf xs)) = [xs]) /\
+    (forall l, map_opt f xs = Some l -> length l = length xs).
+Proof.
+  intros T R f xs.
+  assert (G : forall (A B : Type) (ff : A -> option B) l,
+             fst (stage_batch_default ff l) = map_opt ff l /\ calls (snd (stage_batch_default ff l)) = upto_fail ff l /\
+             yields (snd (stage_batch_default ff l)) = 0).
+  { intros A B ff l. unfold stage_batch_default.
+    destruct (yloop_spec ff (@tick_never unit) l tt [] []) as [G1 G2].
+    pose proof (yloop_measure ff (@tick_never unit) (fun _ => 0) (fun s => eq_refl) l tt [] []) as M.
+    destruct (yloop ff (@tick_never unit) l tt [] []) as [[r u] tr]. cbn [fst snd yields] in *.
+    split; [|split; [exact G2|lia]]. rewrite G1. destruct (map_opt ff l); reflexivity. }
+  split; [apply G|]. split.
+  { intros p. destruct (G T (option T) (filter_process p) xs) as (G1 & G2 & _). rewrite G1, G2. split.
+    - apply (map_opt_all (filter_process p) (fun x => if p x then Some x else None)). intros; reflexivity.
+    - clear. induction xs as [|x r IH]; cbn [upto_fail filter_process]; [reflexivity|]. rewrite IH. reflexivity. }
+  split.
+  { intros bf Hb. unfold stage_batch_func. cbn [fst snd calls]. split; [apply Hb|reflexivity]. }
+  intros l. apply map_opt_length.
+Qed.
+
+Example stage_process_batch_nontrivial :
+  stage_batch_default stage [1; 2; 13; 4]%Z = (None, [ECall 1; ECall 2; ECall 13]%Z) /\
+  fst (stage_batch_default (filter_process (fun x => negb (x mod 3 =? 0)%Z)) [1; 3; 5]%Z) = Some [Some 1; None; Some 5]%Z.
+Proof. vm_compute. split; reflexivity. Qed.
